@@ -896,7 +896,36 @@ var tokAlphabet = []string{"x", "y", "1", "2", "0x1F", "08", "a", "16#ff", "64#@
 	"<=", ">=", "==", "!=", "&", "^", "|", "&&", "||", "^^", ",", "?", ":", "=", "+=", "-=", "*=", "/=", "%=", "&=", "|=", "^=",
 	"<<=", ">>=", "!", "~", "++", "--", "(", ")", "[", "]"}
 
+// corpusLines reads a pinned corpus file of the -in directory (comments and blank lines dropped)
+func corpusFile(o hx.Opts, name string) (string, bool) {
+	if o.In == "" {
+		return "", false
+	}
+	b, err := os.ReadFile(filepath.Join(o.In, name))
+	if err != nil {
+		return "", false
+	}
+	return string(b), true
+}
+
 func modeCode(o hx.Opts) {
+	// the pinned regression corpus runs first, on every seed and tier
+	if txt, ok := corpusFile(o, "regress_code.txt"); ok {
+		for _, line := range strings.Split(txt, "\n") {
+			if line == "" || strings.HasPrefix(line, "#") {
+				continue
+			}
+			src, envs, _ := strings.Cut(line, "\t")
+			var env []binding
+			for _, kv := range strings.Split(envs, ";") {
+				if k, v, ok := strings.Cut(kv, "="); ok {
+					env = append(env, binding{name: k, text: v, isLit: true})
+				}
+			}
+			sort.Slice(env, func(i, j int) bool { return env[i].name < env[j].name })
+			hx.Emit(observeCode("regress", src, env, nil))
+		}
+	}
 	r := hx.Rand(o.Seed, 20)
 	nTree := o.N * 7 / 10
 	for i := 0; i < nTree; i++ {
@@ -1265,9 +1294,30 @@ func genOracle(r *rand.Rand, i int) *oCase {
 			sb.WriteString("a=(" + strings.Join(vals, " ") + ")\n")
 			injectIdx(r, e)
 		}
+		subAppend := false
+		if c.ctx == cSub && r.IntN(3) == 0 {
+			// compound element assignment with a side-effecting subscript built from u (unset) and t (empty)
+			subAppend = true
+			v := &node{k: kVar, text: hx.Pick(r, []string{"u", "t"})}
+			switch r.IntN(5) {
+			case 0:
+				e = &node{k: kInc, op: "++", post: true, x: v}
+			case 1:
+				e = &node{k: kInc, op: "++", post: false, x: v}
+			case 2:
+				e = &node{k: kAsg, op: "+=", x: v, y: litNode(r, int64(1+r.IntN(3)))}
+			case 3:
+				e = &node{k: kBin, op: "+", x: &node{k: kInc, op: "++", post: true, x: v}, y: litNode(r, int64(r.IntN(4)))}
+			default:
+				e = &node{k: kBin, op: ",", x: &node{k: kInc, op: "++", post: r.IntN(2) == 0, x: genVar(r)}, y: &node{k: kAsg, op: "=", x: v, y: litNode(r, int64(r.IntN(5)))}}
+			}
+		}
 		c.exprs = []*node{e}
 		z, er := renv.eval(e, 0)
 		if er == rUndef || er == rDeep || er == rSyntax {
+			return nil
+		}
+		if subAppend && (er != rOK || z.Sign() < 0 || z.Cmp(big.NewInt(200)) > 0) {
 			return nil
 		}
 		src := text(e, tight)
@@ -1291,6 +1341,23 @@ func genOracle(r *rand.Rand, i int) *oCase {
 		case cSub:
 			if er == rOK && (z.Sign() < 0 || z.Cmp(big.NewInt(200)) > 0) {
 				return nil
+			}
+			if subAppend {
+				// a[ e ]+=5 on a=(p q r): the subscript (with its side effects) is evaluated once,
+				// the element is appended to as a string
+				sb.WriteString("a=(p q r)\na[ " + src + " ]+=5\n")
+				want.WriteString("st=0\n")
+				sb.WriteString("echo \"st=$?\"\n")
+				sb.WriteString("echo \"A ${!a[*]} : ${a[*]}\"\n")
+				vals := []string{"p", "q", "r"}
+				k := int(z.Int64())
+				if k < 3 {
+					vals[k] += "5"
+					want.WriteString("A 0 1 2 : " + strings.Join(vals, " ") + "\n")
+				} else {
+					want.WriteString("A 0 1 2 " + z.String() + " : p q r 5\n")
+				}
+				break
 			}
 			sb.WriteString("a[ " + src + " ]=5\n")
 			if er == rOK {
@@ -1524,6 +1591,23 @@ func modeOracle(o hx.Opts) {
 		}
 	}
 	cases = append(cases, pinnedOracle()...)
+	// the pinned regression corpus (ordinary inputs, same oracles) runs first, on every seed and tier
+	if txt, ok := corpusFile(o, "regress_oracle.txt"); ok {
+		var reg []*oCase
+		for _, blk := range strings.Split(txt, "\n----\n") {
+			var sb strings.Builder
+			for _, line := range strings.Split(blk, "\n") {
+				if line == "" || strings.HasPrefix(line, "#") {
+					continue
+				}
+				sb.WriteString(line + "\n")
+			}
+			if sb.Len() > 0 {
+				reg = append(reg, &oCase{ctx: cEcho, script: sb.String() + dumpLine + "\n"})
+			}
+		}
+		cases = append(reg, cases...)
+	}
 	const batch = 250
 	for s := 0; s < len(cases); s += batch {
 		part := cases[s:min(s+batch, len(cases))]
